@@ -31,6 +31,14 @@ monkey-patching from this process.
   * Controller._event_scheduler     -> object whose wait() hands control to the harness; the real
                                        Controller.run() loop executes unmodified
   * ComponentState.finish           -> recording wrapper (ground truth for "the first final state of a component")
+  * the stand-in of a RepeatingEngine ends like the real one: only after ComponentState told it
+    notify_all_producers_finished(), or after kill() - before that its ["exit", c] is not enabled (a Sim with
+    gate_repeating=False restores the former "may exit at any time")
+  * Controller.completionCheck (the package's hooks/status.py::IsStageComplete) -> a function that answers what the
+    harness says; the poll timer of Controller._observe_completionCheck is one of the fake intervals: op
+    ["complete", k] makes the hook of stage k answer True and ticks that timer once (the real pipeline
+    map / filter / first / map(closure -> _stopComponents) runs in the harness thread; the set of components that the
+    closure passes to _stopComponents is iterated in reference order instead of address order: reproducible replays)
   * the stage loop of scripts/elaunch.py:Run (not importable: a script with global option parsing) is
     re-stated in Sim.run(): run() the current stage; stop on an exception unless the stage has
     `continue-on-error`; experiment.incrementStage(); Controller.initialise(next stage); run() ...
@@ -559,7 +567,7 @@ class Sim:
     """One experiment + one real Controller under the deterministic runtime.
 
     Ops (JSON lists):  ["sched"] | ["exit", c] | ["fin", c] | ["pm", c] | ["finA", c] | ["finB", c] | ["finC", c] |
-                       ["kill"] | ["tick", c] | ["next"]
+                       ["kill"] | ["tick", c] | ["next"] | ["complete", k]
     where c is the index of the component in `self.refs` (= canonical topological numbering of the components that
     exist when the Controller is built, then - DoWhile iterations - in order of instantiation).
     `["sched"]` = return from wait() so that the real loop performs its next iteration (active check, `_schedule`).
@@ -572,8 +580,13 @@ class Sim:
     right after it the chooser may let events happen before the run() of the new stage starts (the inter-stage
     window: real notifications do not wait for run())."""
 
-    def __init__(self, flowir_yaml, workdir, scripts_by_ref=None, extra_files=None, real_engines=False):
+    def __init__(self, flowir_yaml, workdir, scripts_by_ref=None, extra_files=None, real_engines=False,
+                 gate_repeating=True):
         env = install()
+        self.gate_repeating = bool(gate_repeating)
+        self._completions = []     # poll timers of _observe_completionCheck, one per run() call = per stage, in order
+        self._complete_flags = {}  # stage index -> what IsStageComplete answers
+        self._complete_fired = set()
         self.env = env
         import tests.utils as TU
         from reactivex.observer.scheduledobserver import ScheduledObserver
@@ -623,6 +636,18 @@ class Sim:
                 os.chdir(cwd)
             ctl = self.controller
             ctl.comp_lock = HLock(self)
+            ctl.completionCheck = lambda stage_index, directory: bool(self._complete_flags.get(int(stage_index)))
+            # the closure of _observe_completionCheck hands _stopComponents a SET of ComponentState objects: its
+            # iteration order depends on object addresses, and it decides the order in which components that are in
+            # POSTMORTEM emit their finished-notification into a shared observe_on pipeline.  For reproducible
+            # replays a set argument is iterated in reference order.
+            real_stop = ctl._stopComponents
+
+            def stop_components(components, stop_optimizer):
+                if isinstance(components, (set, frozenset)):
+                    components = sorted(components, key=lambda c: c.specification.reference)
+                return real_stop(components, stop_optimizer)
+            ctl._stopComponents = stop_components
             nodes = list(ctl.graph.nodes)
             depth = {}
 
@@ -717,8 +742,19 @@ class Sim:
         self.scripts.setdefault(r, [])
         return True
 
+    def _scan_completions(self):
+        for fn, s in self.env["intervals"][self._n_int:]:
+            if fn == "_observe_completionCheck" and not any(s is x for x in self._completions):
+                self._completions.append(s)
+
+    def can_complete(self, k):
+        """the completion hook of stage k is being polled (run() of that stage has started) and has not fired"""
+        self._scan_completions()
+        return 0 <= k < len(self._completions) and k not in self._complete_fired
+
     def _adopt_engines(self):
         env = self.env
+        self._scan_completions()
         new = env["ENGINES"][self._n_eng:]
         del env["ENGINES"][self._n_eng:]
         self.engines.extend(new)
@@ -774,8 +810,10 @@ class Sim:
         comps = []
         for r in self.refs:
             c = self.comp[r]
-            comps.append([self.state_name(r), r in ctl.comp_done, c in ctl.comp_staged_in, c.engine.runs,
-                          bool(c.finishCalled)])
+            e = c.engine
+            comps.append([self.state_name(r), r in ctl.comp_done, c in ctl.comp_staged_in, e.runs,
+                          bool(c.finishCalled),
+                          bool(e.started and e.isAlive() and getattr(e, "producersFinished", False))])
         pend = sorted([k, self.index[r]] for k, r in self.pending)
         snap = {"comps": comps, "stop": bool(ctl.stop_executing), "pending": pend,
                 "stage": int(ctl.currentStage.index)}
@@ -900,9 +938,22 @@ class Sim:
             self.refresh()
 
     # -- enabled ops -------------------------------------------------------------------------
+    def can_exit(self, ref):
+        """the task of `ref` may end now: a plain engine's at any time; a repeating engine ends only after it was told
+        that all its producers finished, or after kill() (RepeatingEngine: the monitor is cancelled by kill() only, which
+        the engine calls itself once `_producers_are_finished`)"""
+        e = self.engine(ref)
+        if not (e.started and e.isAlive()):
+            return False
+        if self.gate_repeating and isinstance(e, self.env["E"].RepeatingEngine):
+            return bool(getattr(e, "producersFinished", False) or getattr(e, "killRequested", False))
+        return True
+
     def running(self):
-        return [i for i, r in enumerate(self.refs)
-                if self.engine(r).started and self.engine(r).isAlive()]
+        return [i for i, r in enumerate(self.refs) if self.can_exit(r)]
+
+    def live(self):
+        return [i for i, r in enumerate(self.refs) if self.engine(r).started and self.engine(r).isAlive()]
 
     def enabled(self):
         ops = [["exit", i] for i in self.running()]
@@ -954,7 +1005,7 @@ class Sim:
         if kind == "exit":
             r = self.refs[op[1]]
             e = self.engine(r)
-            if e.started and e.isAlive():
+            if self.can_exit(r):
                 k = self.execs[r]
                 entry = self._script_entry(r, k)
                 reason = entry.partition(":")[0]
@@ -990,6 +1041,14 @@ class Sim:
                 self._after_worker(r, w)
         elif kind == "kill":
             ctl.killController("harness")
+        elif kind == "complete":
+            k = int(op[1])
+            if self.can_complete(k):
+                self._complete_flags[k] = True
+                self._complete_fired.add(k)
+                self._completions[k].on_next(0)
+            else:
+                done = False
         elif kind == "tick":
             s = self.ticks.get(self.refs[op[1]])
             if s is not None:
